@@ -43,6 +43,13 @@ var c36AlphaD = []string{"a", " ", "*", "_", "!", "&#32;", "&#65;", "\n"}
 // in the content) and backquotes, and "!" (escaped or not) in front of links.
 var c36AlphaE = []string{"a", " ", "  ", "`", "!", "\\!", "[", "](u)", "\n", "\\"}
 
+// Alphabet F: fenced code blocks: backquote and tilde fences of length 3 and
+// 4 (longer ones by concatenation), an info string with a backquote (which
+// forces a tilde fence), and content lines that are themselves runs of fence
+// characters, deep enough for opening fence + info + newline + fence-like
+// content line + newline + closing fence.
+var c36AlphaF = []string{"```", "~~~", "~~~~", "`", "~", "a", "\n", " a`b"}
+
 var c36Widths = []int{0, 1, 5, 20}
 
 // c36Scan is a Codec that looks at the parse of a document: which block and
@@ -341,7 +348,8 @@ func TestVerifC36(t *testing.T) {
 		nc := vk.Pick(c, 5, 6)
 		nd := vk.Pick(c, 6, 7)
 		ne := vk.Pick(c, 5, 6)
-		c.Rule(fmt.Sprintf("every document of <=%d tokens over the 20-token alphabet A %q, every document of <=%d tokens over the 22-token alphabet B %q every document of <=%d tokens over the 13-token alphabet C %q, every document of <=%d tokens over the 8-token alphabet D %q and every document of <=%d tokens over the 10-token alphabet E %q, length-lexicographic, each formatted with widths %v and each output formatted once more; class = (set of block op types, set of inline op types, documented-unsupported flags, which escape forms the width-0 output uses)", na, c36AlphaA, nb, c36AlphaB, nc, c36AlphaC, nd, c36AlphaD, ne, c36AlphaE, c36Widths))
+		nf := vk.Pick(c, 6, 7)
+		c.Rule(fmt.Sprintf("every document of <=%d tokens over the 20-token alphabet A %q, every document of <=%d tokens over the 22-token alphabet B %q every document of <=%d tokens over the 13-token alphabet C %q, every document of <=%d tokens over the 8-token alphabet D %q, every document of <=%d tokens over the 10-token alphabet E %q and every document of <=%d tokens over the 8-token alphabet F %q, length-lexicographic, each formatted with widths %v and each output formatted once more; class = (set of block op types, set of inline op types, documented-unsupported flags, which escape forms the width-0 output uses)", na, c36AlphaA, nb, c36AlphaB, nc, c36AlphaC, nd, c36AlphaD, ne, c36AlphaE, nf, c36AlphaF, c36Widths))
 		c.Assume("'renders to the same HTML' is observed with the package's own parser and HTMLCodec (their agreement with CommonMark is C35's subject), with md.UnescapeHTML = html.UnescapeString as in cmd/elvmdfmt",
 			"documents with nested or consecutive (strong) emphasis - decided by the harness from the parse of the document, as documented on FmtUnsupported - are not judged",
 			"line width is judged only for documents without headings, code blocks and HTML blocks, and only for lines that have a space in their content and no '<', link or code span, as in the upstream fuzz property",
@@ -361,6 +369,7 @@ func TestVerifC36(t *testing.T) {
 		run(c36AlphaC, nc)
 		run(c36AlphaD, nd)
 		run(c36AlphaE, ne)
+		run(c36AlphaF, nf)
 		c.Set("not_judged_documented_unsupported", fs.unsupported.Load())
 		c.Set("width_not_judged_heading_code_html_block", fs.noWidth.Load())
 		keys := make([]string, 0, len(fs.m))
